@@ -867,6 +867,8 @@ class Interp:
         o = self.eval(n.value, fr)
         if isinstance(o, (FuncVal, Builtin)) and getattr(self.e, "guppy_generic_subscript", False):
             return o  # Guppy mode: `nothing[T]` is a type application, not an item access
+        if isinstance(o, ClassVal) and o.enum_kind:
+            return self.getitem(o, self.eval_index(n.slice, fr))       # EnumClass["NAME"]
         if isinstance(o, (ClassVal, ExtVal)) or (isinstance(o, Builtin) and o.name in self.e.bclasses):
             # generic alias such as list[int], Generic[T]
             return o
